@@ -478,12 +478,17 @@ impl Machine {
         let cls = self.closures.get_mut(id.0).unwrap();
         cls.refcount -= 1;
         if cls.refcount == 0 {
+            // Only `close_upvalues_by_idx` retains the closures stored in upvalue cells, and the cells are
+            // shared between sibling closures: a closure that was never closed owns no such reference and
+            // must not release the ones a closed sibling took.
+            let owns_refs = cls.is_closed;
             let raw_refs = self
                 .closures
                 .get(id.0)
                 .unwrap()
                 .upvalues
                 .iter()
+                .filter(|_| owns_refs)
                 .filter_map(|v| {
                     let v = v.borrow();
                     match &*v {
